@@ -83,6 +83,12 @@ func (lw *Lowered) lowerTop(b *B, blk *Block) {
 				if c.Op == "dobj" {
 					used[c.Var] = true
 				}
+				if c.Op == "prop" {
+					if b.G.Props == nil {
+						b.G.Props = map[string]int64{}
+					}
+					b.G.Props[c.Var] = c.PV
+				}
 				walk(c.L)
 				walk(c.R)
 			}
